@@ -138,7 +138,24 @@ def run_finaliser(prog, ctx=None):
         h = prog.func(name)
         if h is None:
             raise Broken("anchor missing: " + name)
-        calls = [e for b, i, e in h.elements() if e.get("k") == "call" and e.get("callee") is not None and _is_cmd_mem(strip(e["callee"], all_casts=True))
+        # the handler may be called through a local that was loaded from the slot (`handler = entry->cmd; .. handler(arg, 0)`)
+        cmd_locals = set()
+        for b, i, n in h.walk_all():
+            pairs = []
+            if n.get("k") == "decl":
+                pairs = [(v["id"], v["init"]) for v in n["vars"] if v.get("init") is not None]
+            elif n.get("k") == "bin" and n.get("op") == "=":
+                l = strip(n["a"], lvalue_to_rvalue=False)
+                if l.get("k") == "ref" and "id" in l["d"]:
+                    pairs = [(l["d"]["id"], n["b"])]
+            for vid, rhs in pairs:
+                if _is_cmd_mem(strip(rhs, all_casts=True)):
+                    cmd_locals.add(vid)
+
+        def is_handler(ce):
+            ce = strip(ce, all_casts=True)
+            return _is_cmd_mem(ce) or (ce.get("k") == "ref" and ce["d"].get("id") in cmd_locals)
+        calls = [e for b, i, e in h.elements() if e.get("k") == "call" and e.get("callee") is not None and is_handler(e["callee"])
                  and len(e.get("args", [])) == 2 and cval(e["args"][1]) == 0]
         res.ob("%s:notifies" % name, bool(calls), h, h.line, "" if calls else "teardown path drops handlers without the end-of-life call")
     if nstores < 5:
